@@ -104,3 +104,79 @@ func VerifH_ParameterDoc() {
 	verifrt.Reach("C17.doc.quoted", quoted)
 	verifrt.Reach("C17.doc.bare", !quoted)
 }
+
+// VerifH_ParameterEscapes (C17, the rejection clauses through the whole
+// pipeline): between the double quotes stand N raw bytes over {a \ / n}. The text
+// is well formed exactly when every backslash is followed by another backslash
+// (there is no quote character in the alphabet); then it is read back with each
+// pair reduced to one backslash. Otherwise - "a backslash before any other
+// character" - the document is rejected, at that character. A lone backslash right
+// before the closing quote escapes it: the quote is then unterminated, rejected too.
+func VerifH_ParameterEscapes() {
+	n := verifrt.Choice("n", verifrt.Bound("N")) + 1
+	r := verifrt.String("r", n)
+	for i := 0; i < n; i++ {
+		c := r[i]
+		verifrt.Assume(c == 'a' || c == '\\' || c == '/' || c == 'n')
+	}
+	// reference
+	value := ""
+	bad := -1 // offset in r of the character after an offending backslash (n: the closing quote)
+	for i := 0; i < n && bad < 0; {
+		if r[i] != '\\' {
+			value += string(r[i])
+			i++
+			continue
+		}
+		if i+1 < n && r[i+1] == '\\' {
+			value += "\\"
+			i += 2
+			continue
+		}
+		bad = i + 1
+	}
+	host := verifrt.Choice("host", 3)
+	var head string
+	switch host {
+	case 0:
+		head = "JSIGHT 0.3\nINFO\nTitle \""
+	case 1:
+		head = "JSIGHT 0.3\nSERVER @s\nBaseUrl \""
+	default:
+		head = "JSIGHT 0.3\nURL /u\nProtocol json-rpc-2.0\nMethod \""
+	}
+	text := head + r + "\"\n"
+	verifrt.Note("doc", text)
+	core, je := verifRun(text)
+	if bad >= 0 {
+		verifrt.Assert("C17.doc.bad-escape-rejected", je != nil)
+		if je != nil && bad < n {
+			verifrt.Assert("C17.doc.bad-escape-rejected-at-that-byte", int(je.Index()) == len(head)+bad)
+		}
+		verifrt.Reach("C17.doc.rejected", true)
+		return
+	}
+	verifrt.Assert("C17.doc.accepted", je == nil)
+	if je != nil {
+		return
+	}
+	got := "<absent>"
+	switch host {
+	case 0:
+		if core.catalog.Info != nil {
+			got = core.catalog.Info.Title
+		}
+	case 1:
+		if s, ok := core.catalog.Servers.Get("@s"); ok {
+			got = s.BaseUrl
+		}
+	default:
+		core.catalog.Interactions.EachSafe(func(_ catalog.InteractionID, x catalog.Interaction) {
+			if j, ok := x.(*catalog.JsonRpcInteraction); ok {
+				got = j.Method
+			}
+		})
+	}
+	verifrt.Assert("C17.doc.read-back", got == value)
+	verifrt.Reach("C17.doc.escaped-backslash", len(value) < n)
+}
